@@ -1,0 +1,185 @@
+//! C02 planner hook.  This file is mounted as a *child module of `commands::prune`*
+//! (see the `#[path]` declaration at the end of `prune.rs`, compiled only with
+//! `--cfg rustic_rs_rustic_core_verif`), because `PrunePlan::new`, the planner
+//! steps and the plan's fields are private to that module.  It only calls the
+//! existing functions in the order `PrunePlan::from_prune_options` calls them;
+//! it contains no planner logic of its own.
+use super::*;
+use crate::repofile::ConfigFile;
+
+// types the harness needs to build a `PlanInput` / read a `PlanOutput`
+pub use super::{LimitOption, PackToDo, PrunePlan};
+pub use crate::blob::{BlobId, BlobLocation, BlobType};
+pub use crate::repofile::{IndexBlob, IndexFile, IndexPack, indexfile::IndexId, packfile::PackId};
+
+/// Everything `from_prune_options` would have read from the repository.
+#[derive(Debug)]
+pub struct PlanInput {
+    pub index_files: Vec<(IndexId, IndexFile)>,
+    pub used: Vec<(BlobType, BlobId)>,
+    pub existing: Vec<(PackId, u32)>,
+    pub now: Timestamp,
+    pub keep_pack: Span,
+    pub keep_delete: Span,
+    pub repack_cacheable_only: bool,
+    pub repack_uncompressed: bool,
+    pub repack_all: bool,
+    pub max_repack: LimitOption,
+    pub max_unused: LimitOption,
+    pub no_resize: bool,
+    pub instant_delete: bool,
+    /// per blob type (tree, data): (target pack size, min tolerate percent, max tolerate percent; 0 = no maximum)
+    pub sizer: [(u32, u32, u32); 2],
+}
+
+#[derive(Debug, Clone)]
+pub struct PackDecision {
+    pub index: IndexId,
+    pub pack: PackId,
+    pub delete_mark: bool,
+    pub blob_type: BlobType,
+    pub todo: PackToDo,
+}
+
+#[derive(Debug, Default)]
+pub struct PlanOutput {
+    /// decisions after `check_existing_packs`, before `filter_index_files` (index order, pack order)
+    pub decisions: Vec<PackDecision>,
+    /// per index file (same order as the input, before filtering): the `modified` flag computed by `PrunePlan::new`
+    pub modified: Vec<(IndexId, bool)>,
+    /// ids of the index files that are rewritten (left in the plan by `filter_index_files`)
+    pub rewritten: Vec<IndexId>,
+    /// `existing_packs` left after `check_existing_packs` (= unreferenced packs)
+    pub unreferenced: Vec<(PackId, u32)>,
+    /// keys left in `used_ids` after `check_existing_packs` (what `retain` in the repack step consults)
+    pub used_left: Vec<(Option<BlobType>, BlobId)>,
+    /// whether `used_ids` is keyed by (type, id)
+    pub typed_keys: bool,
+    /// `(used, unused)` blob counts and sizes per type (tree, data) as accumulated by `decide_packs`
+    pub blobs: [(u64, u64); 2],
+    pub sizes: [(u64, u64); 2],
+    pub packs_used: u64,
+    pub packs_partly_used: u64,
+    pub packs_unused: u64,
+    pub packs_keep: u64,
+    pub packs_repack: u64,
+    pub packs_unref: u64,
+    pub size_unref: u64,
+}
+
+/// Key type of `PrunePlan.used_ids`, whichever the planner uses (plain blob id, or blob type + id);
+/// lets this hook compile against either form.
+pub trait UsedKey: Ord + Copy {
+    const TYPED: bool;
+    fn make(tpe: BlobType, id: BlobId) -> Self;
+    fn split(&self) -> (Option<BlobType>, BlobId);
+}
+impl UsedKey for BlobId {
+    const TYPED: bool = false;
+    fn make(_tpe: BlobType, id: BlobId) -> Self {
+        id
+    }
+    fn split(&self) -> (Option<BlobType>, BlobId) {
+        (None, *self)
+    }
+}
+impl UsedKey for (BlobType, BlobId) {
+    const TYPED: bool = true;
+    fn make(tpe: BlobType, id: BlobId) -> Self {
+        (tpe, id)
+    }
+    fn split(&self) -> (Option<BlobType>, BlobId) {
+        (Some(self.0), self.1)
+    }
+}
+fn used_map<K: UsedKey>(used: Vec<(BlobType, BlobId)>) -> BTreeMap<K, u8> {
+    used.into_iter().map(|(t, i)| (K::make(t, i), 0)).collect()
+}
+fn used_keys<K: UsedKey>(m: &BTreeMap<K, u8>) -> (bool, Vec<(Option<BlobType>, BlobId)>) {
+    (K::TYPED, m.keys().map(UsedKey::split).collect())
+}
+
+fn sizer(s: (u32, u32, u32), tpe: BlobType) -> PackSizer {
+    let mut config = ConfigFile::default();
+    config.treepack_size = Some(s.0);
+    config.datapack_size = Some(s.0);
+    config.treepack_growfactor = Some(0);
+    config.datapack_growfactor = Some(0);
+    config.treepack_size_limit = Some(u32::MAX);
+    config.datapack_size_limit = Some(u32::MAX);
+    config.min_packsize_tolerate_percent = Some(s.1);
+    config.max_packsize_tolerate_percent = Some(s.2);
+    PackSizer::from_config(&config, tpe, 0)
+}
+
+/// The step sequence of `PrunePlan::from_prune_options` on supplied data and a supplied clock.
+pub fn plan(input: PlanInput) -> RusticResult<(PlanOutput, PrunePlan)> {
+    let existing_packs: BTreeMap<PackId, u32> = input.existing.into_iter().collect();
+    let mut pruner = PrunePlan::new(used_map(input.used), existing_packs, input.index_files);
+    pruner.time = input.now.to_zoned(jiff::tz::TimeZone::UTC);
+    let mut out = PlanOutput::default();
+    out.modified = pruner.index_files.iter().map(|i| (i.id, i.modified)).collect();
+    pruner.count_used_blobs();
+    pruner.check()?;
+    let pack_sizer = BlobTypeMap::<u64>::default().map(|tpe, _| match tpe {
+        BlobType::Tree => sizer(input.sizer[0], tpe),
+        BlobType::Data => sizer(input.sizer[1], tpe),
+    });
+    pruner.decide_packs(
+        input.keep_pack,
+        input.keep_delete,
+        input.repack_cacheable_only,
+        input.repack_uncompressed,
+        input.repack_all,
+        &pack_sizer,
+    )?;
+    pruner.decide_repack(
+        &input.max_repack,
+        &input.max_unused,
+        input.repack_uncompressed || input.repack_all,
+        input.no_resize,
+        &pack_sizer,
+    );
+    pruner.check_existing_packs()?;
+    for index in &pruner.index_files {
+        for p in &index.packs {
+            out.decisions.push(PackDecision {
+                index: index.id,
+                pack: p.id,
+                delete_mark: p.delete_mark,
+                blob_type: p.blob_type,
+                todo: p.to_do,
+            });
+        }
+    }
+    out.unreferenced = pruner.existing_packs.iter().map(|(k, v)| (*k, *v)).collect();
+    (out.typed_keys, out.used_left) = used_keys(&pruner.used_ids);
+    for (i, tpe) in [BlobType::Tree, BlobType::Data].into_iter().enumerate() {
+        out.blobs[i] = (pruner.stats.blobs[tpe].used, pruner.stats.blobs[tpe].unused);
+        out.sizes[i] = (pruner.stats.size[tpe].used, pruner.stats.size[tpe].unused);
+    }
+    out.packs_used = pruner.stats.packs.used;
+    out.packs_partly_used = pruner.stats.packs.partly_used;
+    out.packs_unused = pruner.stats.packs.unused;
+    out.packs_keep = pruner.stats.packs.keep;
+    out.packs_repack = pruner.stats.packs.repack;
+    out.packs_unref = pruner.stats.packs_unref;
+    out.size_unref = pruner.stats.size_unref;
+    pruner.filter_index_files(input.instant_delete);
+    out.rewritten = pruner.index_files.iter().map(|i| i.id).collect();
+    Ok((out, pruner))
+}
+
+/// Name of a decision as used by the correspondence check.
+pub fn todo_name(t: PackToDo) -> &'static str {
+    match t {
+        PackToDo::Undecided => "Undecided",
+        PackToDo::Keep => "Keep",
+        PackToDo::Repack => "Repack",
+        PackToDo::MarkDelete => "MarkDelete",
+        PackToDo::KeepMarked => "KeepMarked",
+        PackToDo::KeepMarkedAndCorrect => "KeepMarkedAndCorrect",
+        PackToDo::Recover => "Recover",
+        PackToDo::Delete => "Delete",
+    }
+}
